@@ -11,6 +11,7 @@ mod ser;
 mod settings;
 mod view;
 mod rd;
+mod real;
 
 use std::io::{BufRead, Write};
 
